@@ -27,6 +27,8 @@ POOLS = ['util.inference_util.pool_rdm', 'util.pooling.pool_rdm']
 
 
 def run(ctx, obs):
+    from .c05 import loo_boundary
+    loo_boundary(ctx, obs, 'inference.crossvalsets.sets_leave_one_out_rdm')
     from ..rules import sweeps
     sweeps.run(ctx, obs, 'C07')
     boot(ctx, obs)
